@@ -6,7 +6,7 @@
    count; it does not check the grammar inside the brackets (Model/Paging.v keeps
    "well-formed?" as a declared attribute of a response): on a well-formed document and on
    its prefixes it answers what the decoder does -- the end offset, or "not complete". *)
-From Oras Require Import Base.Prelude.
+From Oras Require Import Base.Prelude Generated.GC15 Model.Paging.
 
 Inductive jst := JOut (depth : nat) | JStr (depth : nat) | JEsc (depth : nat).
 
@@ -48,3 +48,28 @@ Definition scan (s : str) : option nat := scan_from s 0.
 (* what a stream decoder hands to the unmarshaller: the bytes of the first value *)
 Definition first_value (s : str) : option str :=
   match scan s with Some m => Some (firstn m s) | None => None end.
+
+(* ---------- how many bytes the decoder pulls from the body ---------- *)
+
+(* json.Decoder.refill: the buffer starts at 512 bytes and grows to 2*cap+512 whenever it is
+   full; every Read asks for the free part of the buffer, and the body (a bytes reader behind
+   io.LimitReader) gives all it is asked for until [avail] bytes are gone.  The decoder stops
+   reading as soon as the value is complete inside the buffer, or at EOF.
+   cap: bytes read so far if the body lasted; docend: where the value ends. *)
+Fixpoint consumed_loop (fuel : nat) (cap docend avail : N) : N :=
+  match fuel with
+  | O => avail
+  | S f =>
+    if docend <=? N.min cap avail then N.min cap avail
+    else if avail <=? cap then avail
+    else consumed_loop f (2 * cap + 512) docend avail
+  end.
+
+(* avail = what limitReader lets through of a body of [total] bytes; a document that is not
+   complete inside it is read to the end *)
+Definition consumed (avail docend : N) : N :=
+  consumed_loop 80 512 (if docend <=? avail then docend else avail + 1) avail.
+
+(* the bytes of a metadata answer the client consumes: limitReader, then the decoder *)
+Definition consumed_of (limit : Z) (docend total : N) : N :=
+  consumed (N.min (Z.to_N (eff_limit limit)) total) docend.
